@@ -113,7 +113,7 @@ class ConstantFolder(BlockPass):
                     a = self.eval_const(instruction.a.b)
                     b = self.eval_const(instruction.b)
                     assert a.ty is b.ty
-                    value = correct(a.value + b.value, a.ty)
+                    value = cast(a.value + b.value, a.ty)
                     cn = ir.Const(value, "new_fold", a.ty)
                     block.insert_instruction(
                         cn, before_instruction=instruction
@@ -135,7 +135,7 @@ class ConstantFolder(BlockPass):
                     a = self.eval_const(instruction.a.b)
                     b = self.eval_const(instruction.b)
                     assert a.ty is b.ty
-                    value = correct(a.value + b.value, a.ty)
+                    value = cast(a.value + b.value, a.ty)
                     cn = ir.Const(value, "new_fold", a.ty)
                     block.insert_instruction(
                         cn, before_instruction=instruction
